@@ -43,11 +43,11 @@ def gen(rng, i, tier):
     if shared:
         # one description dictionary re-used for every dataset (a loop over banks that only replaces info["data"]): all datasets
         # carry the options of the first; mostly without per-dataset Qmin/Qmax
-        opts = {k: v for k, v in ds[0].items() if k not in ("x", "y", "dy", "unsorted")}
+        opts = {k: v for k, v in ds[0].items() if k not in ("x", "y", "dy", "unsorted", "int_y")}
         if rng.random() < 0.7:
             opts.pop("Qmin", None), opts.pop("Qmax", None)
         for k, d in enumerate(ds):
-            ds[k] = {kk: vv for kk, vv in d.items() if kk in ("x", "y", "dy", "unsorted")} | {kk: (dict(vv) if isinstance(vv, dict) else vv) for kk, vv in opts.items()}
+            ds[k] = {kk: vv for kk, vv in d.items() if kk in ("x", "y", "dy", "unsorted", "int_y")} | {kk: (dict(vv) if isinstance(vv, dict) else vv) for kk, vv in opts.items()}
     # a dataset whose kind is not one of the four choices is rejected with ValueError; the caller carries on with the same object
     reject_at = int(rng.integers(0, nd + 1)) if rng.random() < 0.2 else None
     return dict(datasets=ds, qmin=qmin, qmax=qmax, bcoh=float(rng.uniform(1, 5)), btot=float(rng.uniform(1, 5)), nd=nd,
